@@ -17,6 +17,7 @@ import sys
 import tempfile
 
 HERE = os.path.dirname(os.path.dirname(os.path.abspath(__file__)))
+SDIR = os.environ.get("SEEDED_DIR", "seeded")   # "harmless" for the behaviour-preserving refactors (expected: every check exits 0)
 
 
 def sh(*a, **k):
@@ -24,7 +25,7 @@ def sh(*a, **k):
 
 
 def run_one(sid, tier="quick", seeds=(1,)):
-    d = os.path.join(HERE, "seeded", sid)
+    d = os.path.join(HERE, SDIR, sid)
     meta = json.load(open(os.path.join(d, "meta.json")))
     wt = tempfile.mkdtemp(prefix=f"seedrun_{sid}_", dir="/tmp")
     os.rmdir(wt)
@@ -79,9 +80,9 @@ def main():
     if a and a[0] == "run":
         ids = [a[1]]
     else:
-        ids = sorted(os.listdir(os.path.join(HERE, "seeded")))
+        ids = sorted(os.listdir(os.path.join(HERE, SDIR)))
     for sid in ids:
-        if not os.path.exists(os.path.join(HERE, "seeded", sid, "meta.json")):
+        if not os.path.exists(os.path.join(HERE, SDIR, sid, "meta.json")):
             continue
         r = run_one(sid, tier, seeds)
         print(sid, "CAUGHT" if r.get("caught") else "MISSED", "(with input)" if r.get("caught_with_input") else "",
